@@ -366,13 +366,28 @@ func c13inputUnits(tier string) []mc.Unit {
 func c13schedUnits(tier string) []mc.Unit {
 	var us []mc.Unit
 	small := []fasta.Fasta{{Name: "r1", Sequence: "ACGT"}, {Name: "r 2", Sequence: ""}, {Name: ">r3", Sequence: "GATTACA"}}
-	maxList := 3
-	for n := 1; n <= maxList; n++ {
+	for i := 3; i < 200; i++ {
+		small = append(small, fasta.Fasta{Name: fmt.Sprintf("rec%03d", i), Sequence: strings.Repeat("ACGTA", i%4) + "G"})
+	}
+	type nc struct{ n, capa int }
+	var combos []nc
+	for n := 1; n <= 3; n++ {
 		for _, capa := range []int{0, 1, 2, n, 1000} {
-			n, capa := n, capa
 			if capa == n && (n <= 2) {
 				continue
 			}
+			combos = append(combos, nc{n, capa})
+		}
+	}
+	// longer lists: a consumer can fall far behind the producer
+	for _, n := range []int{8, 24, tier2(tier, 80, 200)} {
+		for _, capa := range []int{0, 1, 5} {
+			combos = append(combos, nc{n, capa})
+		}
+	}
+	{
+		for _, x := range combos {
+			n, capa := x.n, x.capa
 			us = append(us, mc.Unit{Name: fmt.Sprintf("schedules/stream/n=%d/cap=%d", n, capa), Serial: true, Weight: 30, Run: func(r *mc.Recorder) {
 				list := small[:n]
 				text := c13write(list, c13layout{wrap: 3, comment: 2})
